@@ -253,9 +253,17 @@ def dt_strftime(it, v, fmt):
             if isinstance(v.y, int):
                 out += [ord(x) for x in dt(v.y, 1, 1).strftime("%Y")]
             else:
-                if not it.decide(v.y.t >= 1000):
-                    raise Unsupported("strftime %Y for year < 1000 (platform dependent)")
-                out += _dig(it, v.y, 4)
+                if it.decide(v.y.t >= 1000):
+                    out += _dig(it, v.y, 4)
+                else:
+                    # platform behaviour, probed on the running CPython/libc (A11)
+                    if (dt(999, 1, 1).strftime("%Y"), dt(99, 1, 1).strftime("%Y"), dt(9, 1, 1).strftime("%Y")) == ("999", "99", "9"):
+                        nd = 3 if it.decide(v.y.t >= 100) else (2 if it.decide(v.y.t >= 10) else 1)
+                    elif dt(9, 1, 1).strftime("%Y") == "0009":
+                        nd = 4
+                    else:
+                        raise Unsupported("strftime %Y for year < 1000 (platform dependent)")
+                    out += _dig(it, v.y, nd)
         elif k == "y":
             out += _dig(it, v.y % 100 if isinstance(v.y, int) else mk_int(v.y.t % 100), 2)
         elif k == "m":
